@@ -210,6 +210,7 @@ func checkC12(c c12Case) (*core.Failure, string) {
 	w := cloneWorld(c.Init)
 	d := w.Dir()
 	class := "no-default-run-succeeded"
+	failedMidway, afterFailure := false, false
 	for i, op := range append(append([]hOp(nil), c.Ops...), hOp{Kind: "run", Int: core.FlagDefault}) {
 		// I4 bookkeeping: user-supplied complete artifacts present right before a default run
 		user := map[string][]byte{}
@@ -238,8 +239,14 @@ func checkC12(c c12Case) (*core.Failure, string) {
 		if res.Panic != "" {
 			return core.Failf("C12/panic", "step %d (%+v): gopki panicked: %s", i, op, res.Panic), "panic"
 		}
+		if !res.OK() && res.Stage == "update" {
+			failedMidway = true
+		}
 		if op.Int != core.FlagDefault || !res.OK() {
 			continue
+		}
+		if failedMidway {
+			afterFailure = true
 		}
 		regen := 0
 		for range res.Changes {
@@ -254,6 +261,9 @@ func checkC12(c c12Case) (*core.Failure, string) {
 			f.Msg = fmt.Sprintf("after step %d (%+v): %s\nconfigs: %v", i, op.Kind, f.Msg, w.Texts())
 			return f, class
 		}
+	}
+	if afterFailure {
+		class += "+after-a-run-that-failed-part-way"
 	}
 	return nil, class
 }
@@ -288,13 +298,51 @@ func genHistory(t *rapid.T, maxOps int) c12Case {
 		}
 		return false
 	}
+	broken := map[string]bool{}
+	if len(w.Ents) >= 2 && rapid.IntRange(0, 7).Draw(t, "failed-session") == 0 {
+		// one editing session touches two entities, one of them with a build-time mistake; the run fails part-way;
+		// the mistake is corrected afterwards (the other edit must not get lost on the way)
+		a := rapid.IntRange(0, len(w.Ents)-1).Draw(t, "fs-a")
+		b := rapid.IntRange(0, len(w.Ents)-2).Draw(t, "fs-b")
+		if b >= a {
+			b++
+		}
+		ea, eb := &w.Ents[a], &w.Ents[b]
+		xs := append(append([]core.Extension(nil), ea.Extensions...), c12Mistake)
+		ea.Extensions = xs
+		eb.Subject = append(eb.Subject[:1:1], core.RDN{Key: "OU", Value: "same session"})
+		ops := []hOp{{Kind: "edit-ext", Ent: ea.EffAlias(), Exts: xs}, {Kind: "edit-subject", Ent: eb.EffAlias(), Text: "same session"}}
+		if rapid.Bool().Draw(t, "fs-order") {
+			ops[0], ops[1] = ops[1], ops[0]
+		}
+		c.Ops = append(c.Ops, ops...)
+		c.Ops = append(c.Ops, hOp{Kind: "run", Int: rapid.SampledFrom([]int{core.FlagDefault, core.FlagDefault, core.FlagChanged, core.FlagDefault | core.FlagNewer}).Draw(t, "fs-flags")})
+		broken[ea.EffAlias()] = true
+	}
 	n := rapid.IntRange(1, maxOps).Draw(t, "nops")
 	for k := 0; k < n; k++ {
 		l := fmt.Sprintf("op%d", k)
 		e := &w.Ents[rapid.IntRange(0, len(w.Ents)-1).Draw(t, l+"-ent")]
 		alias := e.EffAlias()
 		var op hOp
-		switch rapid.IntRange(0, 17).Draw(t, l+"-kind") {
+		switch rapid.IntRange(0, 19).Draw(t, l+"-kind") {
+		case 18:
+			// a mistake that only shows when the certificate is built (the configuration parses): runs fail from
+			// here on, part-way through, until the mistake is taken out again
+			if broken[alias] || len(broken) > 0 && rapid.Bool().Draw(t, l+"-onebreak") {
+				continue
+			}
+			xs := append(append([]core.Extension(nil), e.Extensions...), c12Mistake)
+			op = hOp{Kind: "edit-ext", Ent: alias, Exts: xs}
+			e.Extensions = xs
+			broken[alias] = true
+		case 19:
+			if len(broken) == 0 {
+				continue
+			}
+			fix := sortedKeys(broken)[rapid.IntRange(0, len(broken)-1).Draw(t, l+"-fix")]
+			op = c12Fix(&w, fix)
+			delete(broken, fix)
 		case 17:
 			// the same extensions in another order
 			if len(e.Extensions) < 2 || extEqual(e.Extensions[0], e.Extensions[len(e.Extensions)-1]) {
@@ -420,13 +468,34 @@ func genHistory(t *rapid.T, maxOps int) c12Case {
 			c.Ops = append(c.Ops, hOp{Kind: "run", Int: rapid.SampledFrom([]int{core.FlagDefault, core.FlagDefault, core.FlagMissing, core.FlagChanged, core.FlagNewer, core.FlagAll}).Draw(t, l+"-runflags")})
 		}
 	}
+	// every mistake is taken out before the history ends (the final default run is expected to succeed)
+	for _, a := range sortedKeys(broken) {
+		if w.Ent(a) != nil {
+			c.Ops = append(c.Ops, c12Fix(&w, a))
+		}
+	}
 	return c
+}
+
+// c12Mistake passes parsing and planning and fails when the extension is built.
+var c12Mistake = core.Extension{Kind: core.KSAN, HasContent: true, SAN: []core.GN{{Type: "ip", Name: "10.0.0"}}}
+
+func c12Fix(w *World, alias string) hOp {
+	e := w.Ent(alias)
+	var xs []core.Extension
+	for _, x := range e.Extensions {
+		if !(x.Kind == core.KSAN && x.HasContent && len(x.SAN) == 1 && x.SAN[0].Name == "10.0.0") {
+			xs = append(xs, x)
+		}
+	}
+	e.Extensions = xs
+	return hOp{Kind: "edit-ext", Ent: alias, Exts: xs, Text: "mistake-removed"}
 }
 
 func TestC12(t *testing.T) {
 	r := core.Start(t, "C12")
 	defer r.Finish()
-	r.Rule = "stateful histories generated against an abstract model of the directory: initial forest of up to 5 entities / 4 tiers (EC keys, profiles, extensions incl. SKI/AKI hash), usually populated by a first run, then 1-6 operations from {edit subject, replace extension list, re-parent to a non-descendant, set/clear profile reference, edit a profile (validity, extension, optional flag), add a leaf, remove a leaf, delete / truncate (0-99%) / strip key / strip certificate / replace with a foreign certificate+key / overwrite with another entity's artifact the artifact of any entity, touch a config, run with any of the 32 flag sets}, each optionally followed by a run, and finally a default run. After every successful default run: (I1) every entity has a parseable certificate and key material; (I2) C01's chain checks for all certificates gopki made (hash line); (I3) each of those equals, after normalising serial/key/signature/run-relative dates/key-derived ids, the certificate of a from-scratch gopki run over the current configuration files; (I4) complete user-supplied root artifacts without hash line are byte-identical; (I5) one more default run is a no-op. Non-trivial = history in which some default run regenerates a strict, non-empty subset of the entities; distinct by the whole history."
+	r.Rule = "stateful histories generated against an abstract model of the directory: initial forest of up to 5 entities / 4 tiers (EC keys, profiles, extensions incl. SKI/AKI hash), usually populated by a first run, then 1-6 operations from {edit subject, replace extension list, re-parent to a non-descendant, set/clear profile reference, edit a profile (validity, extension, optional flag), add a leaf, remove a leaf, delete / truncate (0-99%) / strip key / strip certificate / replace with a foreign certificate+key / overwrite with another entity's artifact the artifact of any entity, touch a config, put a build-time mistake into a config (runs then fail part-way until it is taken out again), run with any of the 32 flag sets}, each optionally followed by a run, and finally a default run. After every successful default run: (I1) every entity has a parseable certificate and key material; (I2) C01's chain checks for all certificates gopki made (hash line); (I3) each of those equals, after normalising serial/key/signature/run-relative dates/key-derived ids, the certificate of a from-scratch gopki run over the current configuration files; (I4) complete user-supplied root artifacts without hash line are byte-identical; (I5) one more default run is a no-op. Non-trivial = history in which some default run regenerates a strict, non-empty subset of the entities; distinct by the whole history."
 	r.Assumptions = []string{"edits keep the hierarchy acyclic and key types stable (EC only), so every default run is expected to be able to succeed; a failing run makes no claim"}
 	wrap := func(c c12Case) *core.Failure {
 		f, class := checkC12(c)
